@@ -915,3 +915,118 @@ Fixpoint distinct_identities {S} (params : list (dparam S)) : bool :=
   | p :: r => negb (existsb (fun q => loc_eqb (dp_loc p) (dp_loc q) && N.eqb (dp_name p) (dp_name q)) r)
               && distinct_identities r
   end.
+
+(* ====================================================================== *)
+(* Part 6: _negative_type (coverage.py:906-922), the values presented as   *)
+(*         Incorrect type, for a type keyword that is a string OR a list   *)
+(* ====================================================================== *)
+
+(* a name met in the type keyword: the seven JSON Schema names that have an entry in
+   STRATEGIES_FOR_TYPE, or any other string (OpenAPI 2 file, a typo): it removes no strategy *)
+Inductive jtype := TInteger | TNumber | TBoolean | TNull | TString | TArray | TObject | TOther (name : N).
+Definition jtype_eqb (a b : jtype) : bool :=
+  match a, b with
+  | TInteger, TInteger | TNumber, TNumber | TBoolean, TBoolean | TNull, TNull
+  | TString, TString | TArray, TArray | TObject, TObject => true
+  | TOther x, TOther y => N.eqb x y
+  | _, _ => false
+  end.
+(* Python: name in types *)
+Definition type_in (t : jtype) (l : list jtype) : bool := existsb (jtype_eqb t) l.
+
+(* the RAW keyword as cover_schema_iter hands it over: type: integer or type: [integer, null] *)
+Inductive type_kw := TyStr (t : jtype) | TyList (l : list jtype).
+(* types = [ty] if isinstance(ty, str) else ty *)
+Definition types_of (kw : type_kw) : list jtype := match kw with TyStr t => [t] | TyList l => l end.
+
+(* the strategies a value is drawn from: st.integers(), NUMERIC_STRATEGY = integers | floats,
+   FLOAT_STRATEGY.filter(_is_non_integer_float), booleans, none, text, ARRAY_STRATEGY, OBJECT_STRATEGY *)
+Inductive strat := SIntegers | SNumeric | SFracFloats | SBooleans | SNone | SText | SArrays | SObjects.
+(* STRATEGIES_FOR_TYPE, in dict order *)
+Definition strategies_for_type : list (jtype * strat) :=
+  [ (TInteger, SIntegers); (TNumber, SNumeric); (TBoolean, SBooleans); (TNull, SNone);
+    (TString, SText); (TArray, SArrays); (TObject, SObjects) ].
+
+(* what a drawn value can be, as far as the type keyword can tell: an int, a float with an integral
+   value (1.0 is an integer for JSON Schema draft 6+), a float with a fractional part, ... *)
+Inductive vclass := KInt | KIntegralFloat | KFracFloat | KBool | KNull | KStr | KArr | KObj.
+(* which classes a strategy can return (the foreign side: any of them, also its minimal example) *)
+Definition draws (s : strat) (k : vclass) : bool :=
+  match s, k with
+  | SIntegers, KInt => true
+  | SNumeric, (KInt | KIntegralFloat | KFracFloat) => true
+  | SFracFloats, KFracFloat => true
+  | SBooleans, KBool => true
+  | SNone, KNull => true
+  | SText, KStr => true
+  | SArrays, KArr => true
+  | SObjects, KObj => true
+  | _, _ => false
+  end.
+(* JSON Schema: the value is of the named type (a bool is not a number; an unknown name has no values) *)
+Definition has_type (t : jtype) (k : vclass) : bool :=
+  match t, k with
+  | TInteger, (KInt | KIntegralFloat) => true
+  | TNumber, (KInt | KIntegralFloat | KFracFloat) => true
+  | TBoolean, KBool => true
+  | TNull, KNull => true
+  | TString, KStr => true
+  | TArray, KArr => true
+  | TObject, KObj => true
+  | _, _ => false
+  end.
+(* the value conforms to the declared type keyword, string or list (a list: any of the names) *)
+Definition conforms_type (kw : type_kw) (k : vclass) : bool := existsb (fun t => has_type t k) (types_of kw).
+
+(* Python dict operations on the strategies dict (unique keys, insertion order) *)
+Definition sd_has (t : jtype) (d : list (jtype * strat)) : bool := existsb (fun p => jtype_eqb t (fst p)) d.
+Definition sd_del (t : jtype) (d : list (jtype * strat)) : list (jtype * strat) :=
+  filter (fun p => negb (jtype_eqb t (fst p))) d.
+Definition sd_set (t : jtype) (s : strat) (d : list (jtype * strat)) : list (jtype * strat) :=
+  if sd_has t d then map (fun p => if jtype_eqb t (fst p) then (t, s) else p) d else d ++ [(t, s)].
+
+(* del strategies[integer] raises KeyError when the key is not there: an explicit outcome *)
+Inductive type_outcome := TypePlan (l : list strat) | TypeRaisesKeyError.
+
+(* _negative_type as a function of the membership test name in types:
+     strategies = {ty: s for ty, s in STRATEGIES_FOR_TYPE.items() if ty not in types}
+     if number in types: del strategies[integer]
+     if integer in types: strategies[number] = FLOAT_STRATEGY.filter(_is_non_integer_float)
+     for strategy in strategies.values(): value = ctx.generate_from(strategy) ...
+   The plan is the list of strategies consulted, in order; the seen set only drops drawn values. *)
+Definition negative_type_plan_with (mem : jtype -> bool) : type_outcome :=
+  let d := filter (fun p => negb (mem (fst p))) strategies_for_type in
+  let d1 := if mem TNumber then (if sd_has TInteger d then Some (sd_del TInteger d) else None) else Some d in
+  match d1 with
+  | None => TypeRaisesKeyError
+  | Some d1 =>
+      let d2 := if mem TInteger then sd_set TNumber SFracFloats d1 else d1 in
+      TypePlan (map snd d2)
+  end.
+Definition negative_type_plan (kw : type_kw) : type_outcome :=
+  negative_type_plan_with (fun t => type_in t (types_of kw)).
+
+(* regression sentinel: the float rule keyed on the RAW keyword (elif ty == integer, the integer
+   strategy popped with a default): right for a plain string, wrong for a list that names integer *)
+Definition negative_type_plan_raw_keyword (kw : type_kw) : type_outcome :=
+  let mem := fun t => type_in t (types_of kw) in
+  let d := filter (fun p => negb (mem (fst p))) strategies_for_type in
+  if mem TNumber then TypePlan (map snd (sd_del TInteger d))
+  else match kw with
+       | TyStr TInteger => TypePlan (map snd (sd_set TNumber SFracFloats d))
+       | _ => TypePlan (map snd d)
+       end.
+
+(* region of the totality statement: number and integer are not both listed *)
+Definition not_number_and_integer (kw : type_kw) : bool :=
+  negb (type_in TNumber (types_of kw) && type_in TInteger (types_of kw)).
+
+(* the minLength / maxLength negatives of cover_schema_iter (coverage.py:389-434) hand
+   {**schema, minLength: n, maxLength: n} to the foreign generator with the DECLARED type keyword
+   (new_schema.setdefault(type, string) only adds string when the keyword is absent): the drawn
+   value may be of any class that conforms to that keyword; a length keyword constrains strings only *)
+Definition length_request_type (declared : option type_kw) : type_kw :=
+  match declared with Some kw => kw | None => TyStr TString end.
+Definition length_applies (k : vclass) : bool := match k with KStr => true | _ => false end.
+(* region: every listed name is string *)
+Definition string_only (kw : type_kw) : bool := forallb (jtype_eqb TString) (types_of kw).
